@@ -106,7 +106,7 @@ TraceStep ==
                                               /\ (ev.um # -1 => cd.st.umask = ev.um)} IN
                   IF same = {} /\ ev.tr # "__end" THEN Note(2, {<<ev.tr, ev.i>>}) ELSE TRUE
                /\ cands' = {[cd EXCEPT !.x = IF ev.call.flag[1] = "sub"
-                                              THEN [dir |-> ev.call.p.parts, vcwd |-> <<>>, umask |-> cd.st.umask]
+                                              THEN [dir |-> ev.call.p.parts, vcwd |-> <<>>, umask |-> cd.st.umask, nested |-> FALSE]
                                               ELSE IF Len(ev.call.flag) > 1
                                               THEN [plan |-> [fn |-> ev.call.flag[2], k |-> ev.call.n], fc |-> EmptyFn]
                                               ELSE X0] : cd \in pre}
